@@ -465,6 +465,9 @@ func (c *FnCtx) addAxioms(specs *SpecSet) {
 		c.names = saveNames
 		if err != nil {
 			// axiom mentions something this package cannot resolve: not applicable here
+			if os.Getenv("GOVC_DEBUG") != "" {
+				fmt.Fprintf(os.Stderr, "axiom %s skipped in %s: %v\n", ax.name, c.fn.Name(), err)
+			}
 			c.rollback(nd, na, before)
 			continue
 		}
